@@ -553,14 +553,22 @@ type ContractSet struct {
 var clauseKeywords = map[string]bool{
 	"func": true, "props": true, "requires": true, "ensures": true, "assigns": true, "loop": true, "alias": true,
 	"inline": true, "trusted": true, "panics": true, "nooverflow": true, "lemma": true, "pure": true, "opaque": true,
-	"extern": true, "assert": true, "fresh": true, "maybenil": true, "package": true, "pred": true,
+	"extern": true, "assert": true, "fresh": true, "maybenil": true, "package": true, "pred": true, "tagset": true,
 }
+
+// tagSets: named groups of property ids (`//@ tagset DIL := C12 C03 C05 C07`), expanded inside [..].
+var tagSets = map[string][]string{}
 
 func splitTags(word string) (string, []string) {
 	if i := strings.Index(word, "["); i >= 0 && strings.HasSuffix(word, "]") {
-		tags := strings.Split(word[i+1:len(word)-1], ",")
-		for k := range tags {
-			tags[k] = strings.TrimSpace(tags[k])
+		var tags []string
+		for _, t := range strings.Split(word[i+1:len(word)-1], ",") {
+			t = strings.TrimSpace(t)
+			if set, ok := tagSets[t]; ok {
+				tags = append(tags, set...)
+			} else {
+				tags = append(tags, t)
+			}
 		}
 		return word[:i], tags
 	}
@@ -618,6 +626,12 @@ func (cs *ContractSet) ReadFile(path, pkgName string, external bool) error {
 		switch kw {
 		case "package":
 			pkgName = rest
+		case "tagset":
+			i := strings.Index(rest, ":=")
+			if i < 0 {
+				return fmt.Errorf("%s: tagset NAME := C01 C02 ...", l.pos)
+			}
+			tagSets[strings.TrimSpace(rest[:i])] = strings.Fields(rest[i+2:])
 		case "pred":
 			// pred name(a, b) := expr
 			i := strings.Index(rest, ":=")
@@ -702,7 +716,13 @@ func (cs *ContractSet) ReadFile(path, pkgName string, external bool) error {
 			}
 			switch kw {
 			case "props":
-				cur.Props = append(cur.Props, strings.Fields(strings.ReplaceAll(rest, ",", " "))...)
+				for _, p := range strings.Fields(strings.ReplaceAll(rest, ",", " ")) {
+					if set, ok := tagSets[p]; ok {
+						cur.Props = append(cur.Props, set...)
+					} else {
+						cur.Props = append(cur.Props, p)
+					}
+				}
 			case "requires":
 				c, err := mk(rest)
 				if err != nil {
